@@ -173,6 +173,7 @@ func checkC01(c *Ctx) {
 	checkC01Random(c)
 	checkC01Sweep(c)
 	checkC01Awkward(c)
+	checkC01DeepNesting(c)
 
 	c.Set("exhaustive", true)
 	c.Set("bounds", map[string]any{"MaxDepth": maxDepth})
